@@ -512,7 +512,7 @@ Lemma mono_add_elems c d : monoO (add_elems c d).
 Proof.
   intros s s' Hb E. unfold add_elems in E. destruct (ek (en s)); try discriminate.
   - injection E as <-. rewrite bad_upd_en. exact Hb.
-  - injection E as <-. rewrite bad_emit_raw, bad_space_if_hw. exact Hb.
+  - destruct d; injection E as <-; [exact Hb | rewrite bad_emit_raw, bad_space_if_hw; exact Hb].
   - eapply mono_emit_elems; eauto.
 Qed.
 
@@ -1204,61 +1204,86 @@ Proof.
   intros Hl HF. destruct l as [|a l]; [congruence|]. inversion HF; subst. cbn. destruct a; [congruence | discriminate].
 Qed.
 
-(* Column advance of the data events of one chunk: one per separator *)
-Definition hex_dz (hw : bool) (ds : list bytes) : Z := ((if hw then 1 else 0) + Z.of_nat (length ds) - 1)%Z.
+(* Column advance of the data events of one chunk: one per separator, i.e. one per
+   non-empty data event after the first element *)
+Definition hex_dz (hw : bool) (ds : list bytes) : Z :=
+  ((if hw then 1 else 0) + Z.of_nat (length (filter (@nonemptyb N) ds)) - 1)%Z.
 
-(* media / custom binary: every data event writes its bytes, separated by one space from the previous event *)
+Lemma upd_erem_same s r : erem (en s) = r -> upd_en (fun e => set_erem r e) s = s.
+Proof. intros <-. destruct s as [? ? ? ? ? [] ? ?]; reflexivity. Qed.
+
+(* media / custom binary: every non-empty data event writes its bytes, separated by one
+   space from what was written before; an empty data event writes nothing *)
 Lemma run_data_hex c : forall ds s r m,
-  open_as KHex s r m -> r < 2 ^ 64 -> ds <> [] -> Forall (fun d => d <> []) ds -> length (concat ds) = N.to_nat r ->
+  open_as KHex s r m -> r < 2 ^ 64 -> ds <> [] -> last ds [] <> [] -> length (concat ds) = N.to_nat r ->
   run c s (data_events ds) =
   let s' := set_en (set_ehw true (set_rem0 (en s)))
                    (emit_cd ((if ehw (en s) then [32] else []) ++ hexbytes (concat ds)) (hex_dz (ehw (en s)) ds) s) in
   if m then Some s' else end_array s'.
 Proof.
-  induction ds as [|d rest IH]; intros s r m (Ek & Er & Em) Hr Hne HF Hlen; [congruence|].
-  pose proof (Forall_inv HF) as Hd. pose proof (Forall_inv_tail HF) as HF'. cbn beta in Hd.
+  induction ds as [|d rest IH]; intros s r m (Ek & Er & Em) Hr Hne Hlast Hlen; [congruence|].
   cbn [data_events map run step].
   rewrite (tail_of_w1 c KHex d s Ek) by (reflexivity || discriminate).
-  unfold tail_of, add_elems. rewrite Ek. cbn [bind]. rewrite Nat.div_1_r.
+  unfold tail_of, add_elems. rewrite Ek.
   assert (Hlen' : (length d + length (concat rest) = N.to_nat r)%nat) by (cbn [concat] in Hlen; rewrite app_length in Hlen; exact Hlen).
-  set (pre := if ehw (en s) then [32] else []).
-  set (dz0 := if ehw (en s) then 1%Z else 0%Z).
-  set (s1 := upd_en _ (emit_raw _ (space_if_hw s))).
-  assert (Hs1 : s1 = set_en (set_erem (r - N.of_nat (length d)) (set_ehw true (en s))) (emit_cd (pre ++ hexbytes d) dz0 s)).
-  { unfold s1, pre, dz0. clear - Er Hr Hlen'.
-    destruct s as [ro co io sto cho0 [ek0 er0 hw0 em0 el0 eb0 ec0 eo0] di ba]. cbn in Er. subst er0.
-    unfold upd_en, space_if_hw, upd_en, emit_raw, emit_nolf, emit_cd, set_en. cbn.
-    destruct hw0; cbn; rewrite (wrap64_sub r (length d) Hr) by lia; f_equal; lia. }
-  assert (Hen1 : en s1 = set_erem (r - N.of_nat (length d)) (set_ehw true (en s))) by (rewrite Hs1; reflexivity).
-  unfold finish_if_done. rewrite Hen1.
-  replace (erem (set_erem _ _)) with (r - N.of_nat (length d)) by (destruct (en s); reflexivity).
-  replace (emore (set_erem _ (set_ehw true (en s)))) with m by (destruct (en s); cbn in *; congruence).
-  destruct rest as [|d2 rest].
-  - replace (hex_dz (ehw (en s)) [d]) with dz0 by (unfold hex_dz, dz0; cbn [length]; destruct (ehw (en s)); lia).
-    cbn [concat] in *. rewrite app_nil_r in *. cbn [length] in Hlen'.
-    assert (Hz : r - N.of_nat (length d) =? 0 = true) by (apply N.eqb_eq; lia). rewrite Hz. cbn [andb run].
-    assert (Hs : s1 = set_en (set_ehw true (set_rem0 (en s))) (emit_cd (pre ++ hexbytes d) dz0 s)).
-    { rewrite Hs1. f_equal. replace (r - N.of_nat (length d)) with 0 by lia. destruct (en s); reflexivity. }
-    rewrite <- Hs. destruct m; cbn [negb]; [reflexivity | destruct (end_array s1); reflexivity].
-  - remember (d2 :: rest) as rest' eqn:Hr'.
+  destruct d as [|b0 d0].
+  - (* an empty data event: nothing happens *)
+    cbn [bind length]. rewrite Nat.div_1_r.
+    assert (Hw0 : wrap64 (Z.of_N (erem (en s)) - Z.of_nat 0) = r) by (rewrite Er, (wrap64_sub r 0 Hr) by lia; lia).
+    replace (upd_en (fun e => set_erem (wrap64 (Z.of_N (erem e) - Z.of_nat 0)) e) s) with s
+      by (symmetry; unfold upd_en; rewrite Hw0; apply (upd_erem_same s r Er)).
+    destruct rest as [|d2 rest]; [cbn [last] in Hlast; congruence|].
+    remember (d2 :: rest) as rest' eqn:Hr'.
     assert (Hne' : rest' <> []) by (subst rest'; discriminate).
-    clear Hr' d2 rest Hne.
-    pose proof (concat_nonempty rest' Hne' HF') as Hcr.
-    assert (Hrest : (0 < length (concat rest'))%nat) by (destruct (concat rest'); [congruence | cbn; lia]).
-    assert (Hz : r - N.of_nat (length d) =? 0 = false) by (apply N.eqb_neq; lia). rewrite Hz. cbn [andb bind].
+    assert (Hlast' : last rest' [] <> []) by (subst rest'; exact Hlast).
+    clear Hr' d2 rest Hlast Hne.
+    pose proof (concat_last_pos rest' Hlast') as Hrest. cbn [length] in Hlen'.
+    unfold finish_if_done. rewrite Er.
+    assert (Hz : r =? 0 = false) by (apply N.eqb_neq; lia). rewrite Hz. cbn [andb bind].
     change (map EArrayData rest') with (data_events rest').
-    assert (Hrun := IH s1 (r - N.of_nat (length d)) m).
-    rewrite Hrun; try assumption; try lia;
-      [| unfold open_as; rewrite Hen1; destruct (en s); cbn in *; repeat split; congruence].
-    replace (hex_dz (ehw (en s)) (d :: rest')) with (dz0 + hex_dz true rest')%Z
-      by (unfold hex_dz, dz0; cbn [length]; destruct (ehw (en s)); lia).
-    cbv zeta. rewrite Hen1.
-    rewrite ehw_set_erem, ehw_set_ehw.
-    rewrite Hs1, emit_cd_set_en, set_en_set_en, emit_cd_cd.
-    cbn [concat]. rewrite (hexbytes_app d (concat rest') Hd Hcr).
-    replace (set_ehw true (set_rem0 (set_erem (r - N.of_nat (length d)) (set_ehw true (en s))))) with (set_ehw true (set_rem0 (en s)))
-      by (destruct (en s); reflexivity).
-    rewrite <- !app_assoc. reflexivity.
+    rewrite (IH s r m); try assumption; try lia; try (repeat split; assumption); try reflexivity.
+  - remember (b0 :: d0) as d eqn:Hdd. assert (Hd : d <> []) by (subst d; discriminate). clear Hdd b0 d0.
+    cbn [bind]. rewrite Nat.div_1_r.
+    set (pre := if ehw (en s) then [32] else []).
+    set (dz0 := if ehw (en s) then 1%Z else 0%Z).
+    set (s1 := upd_en _ (emit_raw _ (space_if_hw s))).
+    assert (Hs1 : s1 = set_en (set_erem (r - N.of_nat (length d)) (set_ehw true (en s))) (emit_cd (pre ++ hexbytes d) dz0 s)).
+    { unfold s1, pre, dz0. clear - Er Hr Hlen'.
+      destruct s as [ro co io sto cho0 [ek0 er0 hw0 em0 el0 eb0 ec0 eo0] di ba]. cbn in Er. subst er0.
+      unfold upd_en, space_if_hw, upd_en, emit_raw, emit_nolf, emit_cd, set_en. cbn.
+      destruct hw0; cbn; rewrite (wrap64_sub r (length d) Hr) by lia; f_equal; lia. }
+    assert (Hen1 : en s1 = set_erem (r - N.of_nat (length d)) (set_ehw true (en s))) by (rewrite Hs1; reflexivity).
+    unfold finish_if_done. rewrite Hen1.
+    replace (erem (set_erem _ _)) with (r - N.of_nat (length d)) by (destruct (en s); reflexivity).
+    replace (emore (set_erem _ (set_ehw true (en s)))) with m by (destruct (en s); cbn in *; congruence).
+    assert (Hfd : length (filter (@nonemptyb N) (d :: rest)) = S (length (filter (@nonemptyb N) rest))) by (destruct d; [congruence | reflexivity]).
+    destruct rest as [|d2 rest].
+    + replace (hex_dz (ehw (en s)) [d]) with dz0 by (unfold hex_dz, dz0; rewrite Hfd; cbn [filter length]; destruct (ehw (en s)); lia).
+      cbn [concat] in *. rewrite app_nil_r in *. cbn [length] in Hlen'.
+      assert (Hz : r - N.of_nat (length d) =? 0 = true) by (apply N.eqb_eq; lia). rewrite Hz. cbn [andb run].
+      assert (Hs : s1 = set_en (set_ehw true (set_rem0 (en s))) (emit_cd (pre ++ hexbytes d) dz0 s)).
+      { rewrite Hs1. f_equal. replace (r - N.of_nat (length d)) with 0 by lia. destruct (en s); reflexivity. }
+      rewrite <- Hs. destruct m; cbn [negb]; [reflexivity | destruct (end_array s1); reflexivity].
+    + remember (d2 :: rest) as rest' eqn:Hr'.
+      assert (Hne' : rest' <> []) by (subst rest'; discriminate).
+      assert (Hlast' : last rest' [] <> []) by (subst rest'; exact Hlast).
+      clear Hr' d2 rest Hlast Hne.
+      pose proof (concat_last_pos rest' Hlast') as Hrest.
+      assert (Hcr : concat rest' <> []) by (destruct (concat rest'); [cbn in Hrest; lia | discriminate]).
+      assert (Hz : r - N.of_nat (length d) =? 0 = false) by (apply N.eqb_neq; lia). rewrite Hz. cbn [andb bind].
+      change (map EArrayData rest') with (data_events rest').
+      assert (Hrun := IH s1 (r - N.of_nat (length d)) m).
+      rewrite Hrun; try assumption; try lia;
+        [| unfold open_as; rewrite Hen1; destruct (en s); cbn in *; repeat split; congruence].
+      replace (hex_dz (ehw (en s)) (d :: rest')) with (dz0 + hex_dz true rest')%Z
+        by (unfold hex_dz, dz0; rewrite Hfd; destruct (ehw (en s)); lia).
+      cbv zeta. rewrite Hen1.
+      rewrite ehw_set_erem, ehw_set_ehw.
+      rewrite Hs1, emit_cd_set_en, set_en_set_en, emit_cd_cd.
+      cbn [concat]. rewrite (hexbytes_app d (concat rest') Hd Hcr).
+      replace (set_ehw true (set_rem0 (set_erem (r - N.of_nat (length d)) (set_ehw true (en s))))) with (set_ehw true (set_rem0 (en s)))
+        by (destruct (en s); reflexivity).
+      rewrite <- !app_assoc. reflexivity.
 Qed.
 
 (* ---- bit arrays ---- *)
@@ -1376,19 +1401,19 @@ Lemma bind_assoc {A B C} (o : option A) (f : A -> option B) (g : B -> option C) 
 Proof. destruct o; reflexivity. Qed.
 
 Section Chunks.
-  Variables (c : ccfg) (strict : bool) (k : akind).
+  Variables (c : ccfg) (k : akind).
   Variable inv : est -> Prop.
   (* the effect of one whole chunk (header and data events) short of ending the array *)
   Variable pstep : est -> chunk -> option est.
-  Hypothesis Hchunk : forall s ch, inv s -> chunk_wf strict k ch ->
+  Hypothesis Hchunk : forall s ch, inv s -> chunk_wf k ch ->
     run c s (chunk_events ch) =
     match pstep s ch with None => None | Some s' => if snd (fst ch) then Some s' else end_array s' end.
-  Hypothesis Hinv : forall s ch s', inv s -> chunk_wf strict k ch -> pstep s ch = Some s' -> inv s'.
+  Hypothesis Hinv : forall s ch s', inv s -> chunk_wf k ch -> pstep s ch = Some s' -> inv s'.
 
   Fixpoint psteps (s : est) (cs : list chunk) : option est :=
     match cs with [] => Some s | ch :: r => bind (pstep s ch) (fun s' => psteps s' r) end.
 
-  Lemma run_chunks cs : forall s, inv s -> chunks_wf strict k cs ->
+  Lemma run_chunks cs : forall s, inv s -> chunks_wf k cs ->
     run c s (chunks_events cs) = bind (psteps s cs) end_array.
   Proof.
     induction cs as [|ch r IH]; intros s Hi Hwf; [destruct Hwf|].
@@ -1423,12 +1448,12 @@ Definition pstep_num (c : ccfg) (k : nkind) (s : est) (ch : chunk) : option est 
   | Some ps => Some (set_en (set_emore (snd (fst ch)) (eng_upd (en s) 0 (ehw (en s) || nonempty E) [])) (emit_pieces ps s))
   end.
 
-Lemma chunk_num c strict k s ch :
-  inv_num k s -> chunk_wf strict (KNum k) ch ->
+Lemma chunk_num c k s ch :
+  inv_num k s -> chunk_wf (KNum k) ch ->
   run c s (chunk_events ch) =
   match pstep_num c k s ch with None => None | Some s' => if snd (fst ch) then Some s' else end_array s' end.
 Proof.
-  intros [Ek El] Hwf. destruct ch as [[n m] ds]. cbn [chunk_wf] in Hwf. destruct Hwf as (Hn & H0 & Hpos & _).
+  intros [Ek El] Hwf. destruct ch as [[n m] ds]. cbn [chunk_wf] in Hwf. destruct Hwf as (Hn & H0 & Hpos).
   rewrite run_chunk_events. unfold pstep_num, chunk_payload. cbn [fst snd].
   destruct (N.eq_dec n 0) as [->|Hnz].
   - rewrite (H0 eq_refl). cbn [concat grp fst elems_pieces nonempty emit_pieces fold_left data_events map].
@@ -1461,7 +1486,7 @@ Proof.
   unfold inv_num. cbn [en set_en]. destruct (en s); cbn in *. split; congruence.
 Qed.
 
-Lemma chunks_wf_forall strict k cs : chunks_wf strict k cs -> Forall (chunk_wf strict k) cs.
+Lemma chunks_wf_forall k cs : chunks_wf k cs -> Forall (chunk_wf k) cs.
 Proof.
   induction cs as [|ch r IH]; intro H; [constructor|]. cbn [chunks_wf] in H. destruct H as [Hc Hr].
   constructor; [exact Hc|]. destruct r; [constructor | apply IH; tauto].
@@ -1470,15 +1495,15 @@ Qed.
 Lemma set_en_en s : set_en (en s) s = s.
 Proof. destruct s; reflexivity. Qed.
 
-Lemma payload_len_num strict k ch : chunk_wf strict (KNum k) ch -> length (chunk_payload ch) = (N.to_nat (fst (fst ch)) * nk_width k)%nat.
+Lemma payload_len_num k ch : chunk_wf (KNum k) ch -> length (chunk_payload ch) = (N.to_nat (fst (fst ch)) * nk_width k)%nat.
 Proof.
-  destruct ch as [[n m] ds]. cbn [chunk_wf chunk_payload fst snd]. intros (Hn & H0 & Hpos & _).
+  destruct ch as [[n m] ds]. cbn [chunk_wf chunk_payload fst snd]. intros (Hn & H0 & Hpos).
   destruct (N.eq_dec n 0) as [->|Hnz]; [rewrite (H0 eq_refl); reflexivity|].
   destruct Hpos as (_ & _ & Hlen); [lia|]. exact Hlen.
 Qed.
 
-Lemma psteps_num c strict k : forall cs s,
-  inv_num k s -> Forall (chunk_wf strict (KNum k)) cs ->
+Lemma psteps_num c k : forall cs s,
+  inv_num k s -> Forall (chunk_wf (KNum k)) cs ->
   match psteps (pstep_num c k) s cs, elems_pieces c k (ehw (en s)) (fst (grp (nk_width k) [] (flat_map chunk_payload cs))) with
   | Some s', Some ps => exists E', s' = set_en E' (emit_pieces ps s) /\ ecomp E' = ecomp (en s) /\ eouter E' = eouter (en s)
   | None, None => True
@@ -1490,11 +1515,11 @@ Proof.
   - cbn. exists (en s). rewrite set_en_en. auto.
   - pose proof (Forall_inv HF) as Hch. pose proof (Forall_inv_tail HF) as HF'.
     cbn [psteps flat_map]. rewrite grp_app.
-    rewrite (grp_whole (nk_width k) _ Hw _ (payload_len_num strict k ch Hch)).
+    rewrite (grp_whole (nk_width k) _ Hw _ (payload_len_num k ch Hch)).
     destruct (grp (nk_width k) [] (flat_map chunk_payload r)) as [E2 L2] eqn:Hg2. cbn [fst].
     rewrite elems_pieces_app.
     unfold pstep_num at 1. cbv zeta.
-    rewrite (grp_whole (nk_width k) _ Hw _ (payload_len_num strict k ch Hch)). cbn [fst].
+    rewrite (grp_whole (nk_width k) _ Hw _ (payload_len_num k ch Hch)). cbn [fst].
     set (E1 := chop _ _ _).
     destruct (elems_pieces c k (ehw (en s)) E1) as [ps1|] eqn:Ep1; [|exact I]. cbn [bind].
     set (s1 := set_en _ (emit_pieces ps1 s)).
@@ -1517,12 +1542,12 @@ Definition inv_kind (k : akind) (s : est) : Prop := ek (en s) = k.
 Definition pstep_str (s : est) (ch : chunk) : option est :=
   Some (set_en (set_emore (snd (fst ch)) (set_ebuf (ebuf (en s) ++ chunk_payload ch) (set_rem0 (en s)))) s).
 
-Lemma chunk_str c strict s ch :
-  inv_kind KStr s -> chunk_wf strict KStr ch ->
+Lemma chunk_str c s ch :
+  inv_kind KStr s -> chunk_wf KStr ch ->
   run c s (chunk_events ch) =
   match pstep_str s ch with None => None | Some s' => if snd (fst ch) then Some s' else end_array s' end.
 Proof.
-  intros Ek Hwf. destruct ch as [[n m] ds]. cbn [chunk_wf] in Hwf. destruct Hwf as (Hn & H0 & Hpos & _).
+  intros Ek Hwf. destruct ch as [[n m] ds]. cbn [chunk_wf] in Hwf. destruct Hwf as (Hn & H0 & Hpos).
   rewrite run_chunk_events. unfold pstep_str, chunk_payload. cbn [fst snd].
   destruct (N.eq_dec n 0) as [->|Hnz].
   - rewrite (H0 eq_refl). cbn [concat data_events map]. rewrite begin_chunk_zero. cbv zeta. rewrite app_nil_r.
@@ -1564,11 +1589,11 @@ Definition pstep_hex (s : est) (ch : chunk) : option est :=
   end.
 
 Lemma chunk_hex c s ch :
-  inv_kind KHex s -> chunk_wf true KHex ch ->
+  inv_kind KHex s -> chunk_wf KHex ch ->
   run c s (chunk_events ch) =
   match pstep_hex s ch with None => None | Some s' => if snd (fst ch) then Some s' else end_array s' end.
 Proof.
-  intros Ek Hwf. destruct ch as [[n m] ds]. cbn [chunk_wf] in Hwf. destruct Hwf as (Hn & H0 & Hpos & Hstrict).
+  intros Ek Hwf. destruct ch as [[n m] ds]. cbn [chunk_wf] in Hwf. destruct Hwf as (Hn & H0 & Hpos).
   rewrite run_chunk_events. unfold pstep_hex. cbn [fst snd].
   destruct (N.eq_dec n 0) as [->|Hnz].
   - rewrite (H0 eq_refl). cbn [data_events map]. rewrite begin_chunk_zero. cbv zeta.
@@ -1580,7 +1605,7 @@ Proof.
     assert (Hen1 : en s1 = set_emore m (set_erem n (en s))) by reflexivity.
     assert (A1 : open_as KHex s1 n m).
     { unfold open_as. rewrite Hen1. unfold inv_kind in Ek. destruct (en s); cbn in *. repeat split; congruence. }
-    rewrite (run_data_hex c ds s1 n m A1 Hn Hne (Hstrict eq_refl eq_refl)) by lia.
+    rewrite (run_data_hex c ds s1 n m A1 Hn Hne Hlast) by lia.
     cbv zeta. rewrite Hen1. destruct ds as [|d0 ds0]; [congruence|].
     replace (ehw (set_emore m (set_erem n (en s)))) with (ehw (en s)) by (destruct (en s); reflexivity).
     unfold s1, upd_en. rewrite emit_cd_set_en, set_en_set_en.
@@ -1597,12 +1622,12 @@ Definition pstep_bit (s : est) (ch : chunk) : option est :=
 Lemma emit_nolf_nil s : emit_nolf [] s = s.
 Proof. destruct s. unfold emit_nolf, emit_cd. cbn. f_equal. lia. Qed.
 
-Lemma chunk_bit c strict s ch :
-  inv_kind KBit s -> chunk_wf strict KBit ch ->
+Lemma chunk_bit c s ch :
+  inv_kind KBit s -> chunk_wf KBit ch ->
   run c s (chunk_events ch) =
   match pstep_bit s ch with None => None | Some s' => if snd (fst ch) then Some s' else end_array s' end.
 Proof.
-  intros Ek Hwf. destruct ch as [[n m] ds]. cbn [chunk_wf] in Hwf. destruct Hwf as (Hn & H0 & Hpos & _).
+  intros Ek Hwf. destruct ch as [[n m] ds]. cbn [chunk_wf] in Hwf. destruct Hwf as (Hn & H0 & Hpos).
   rewrite run_chunk_events. unfold pstep_bit, chunk_bits. cbn [fst snd].
   destruct (N.eq_dec n 0) as [->|Hnz].
   - rewrite (H0 eq_refl). cbn [data_events map concat bytes_bits flat_map firstn N.to_nat bits_text map]. 
@@ -1642,7 +1667,7 @@ Proof.
 Qed.
 
 Lemma psteps_hex : forall cs s,
-  Forall (chunk_wf true KHex) cs ->
+  Forall (chunk_wf KHex) cs ->
   let P := flat_map chunk_payload cs in
   exists E' dz,
     psteps pstep_hex s cs =
@@ -1663,8 +1688,11 @@ Proof.
       split; [reflexivity|]. rewrite Hc, Ho. destruct (en s); auto.
     + cbn [bind]. set (ds := d0 :: ds0) in *. set (s1 := set_en _ (emit_cd _ _ s)).
       destruct (IH s1 HF') as (E' & dz & Hp & Hc & Ho). cbv zeta in Hp.
-      cbn [chunk_wf] in Hch. destruct Hch as (Hn & H0 & Hpos & Hstrict).
-      assert (HP1 : concat ds <> []) by (apply concat_nonempty; [unfold ds; discriminate | apply Hstrict; reflexivity]).
+      cbn [chunk_wf] in Hch. destruct Hch as (Hn & H0 & Hpos).
+      assert (HP1 : concat ds <> []).
+      { destruct (N.eq_dec n 0) as [Hz|Hz]; [specialize (H0 Hz); unfold ds in H0; discriminate|].
+        destruct Hpos as (_ & Hl & _); [lia|]. pose proof (concat_last_pos ds Hl) as Hcp.
+        destruct (concat ds); [cbn in Hcp; lia | discriminate]. }
       exists E', (hex_dz (ehw (en s)) ds + dz)%Z. rewrite Hp. unfold s1 in *. cbn [en set_en] in *.
       rewrite emit_cd_set_en, set_en_set_en, emit_cd_cd.
       replace (ehw (set_emore m (set_ehw true (set_rem0 (en s))))) with true by (destruct (en s); reflexivity).
@@ -1893,8 +1921,8 @@ Proof.
 Qed.
 
 (* the chunks of a numeric array, from the state right after its header *)
-Lemma num_chunks c strict k o hd x cs :
-  chunks_wf strict (KNum k) cs ->
+Lemma num_chunks c k o hd x cs :
+  chunks_wf (KNum k) cs ->
   let sB := emit_nolf hd (upd_en (eng_begin (KNum k) CEnd o) x) in
   match elems_pieces c k false (fst (grp (nk_width k) [] (flat_map chunk_payload cs))) with
   | Some ps => exists E', run c sB (chunks_events cs) = end_array (set_en E' (emit_pieces ps sB)) /\ ecomp E' = CEnd /\ eouter E' = o
@@ -1903,9 +1931,9 @@ Lemma num_chunks c strict k o hd x cs :
 Proof.
   intros Hwf sB.
   assert (Hi : inv_num k sB) by (unfold inv_num; split; reflexivity).
-  rewrite (run_chunks c strict (KNum k) (inv_num k) (pstep_num c k)
-             (fun s ch => chunk_num c strict k s ch) (fun s ch s' Hs _ Hp => inv_pstep_num c k s ch s' Hs Hp) cs sB Hi Hwf).
-  pose proof (psteps_num c strict k cs sB Hi (chunks_wf_forall _ _ _ Hwf)) as HP.
+  rewrite (run_chunks c (KNum k) (inv_num k) (pstep_num c k)
+             (fun s ch => chunk_num c k s ch) (fun s ch s' Hs _ Hp => inv_pstep_num c k s ch s' Hs Hp) cs sB Hi Hwf).
+  pose proof (psteps_num c k cs sB Hi (chunks_wf_forall _ _ Hwf)) as HP.
   change (ehw (en sB)) with false in HP.
   destruct (psteps (pstep_num c k) sB cs) as [s'|]; destruct (elems_pieces c k false _) as [ps|]; cbv beta iota in HP; try contradiction; cbn [bind].
   - destruct HP as (E' & HE & Hc & Ho). exists E'. rewrite HE. auto.
@@ -1933,7 +1961,7 @@ Proof.
 Qed.
 
 Lemma group_num_chunked c t k cs s :
-  nkind_of t = Some k -> chunks_wf true (KNum k) cs ->
+  nkind_of t = Some k -> chunks_wf (KNum k) cs ->
   oeq (run c s (EArrayBegin t :: chunks_events cs)) (canon c (HArr t) (ABytes (flat_map chunk_payload cs)) s).
 Proof.
   intros Hk Hwf. destruct (nkind_of_facts t k Hk) as (H1 & H2 & H3 & H4 & H5 & _).
@@ -1942,7 +1970,7 @@ Proof.
   destruct (before_value_facts s sv Ebv) as (Hst & Hne & _).
   rewrite (engine_begin_num c t k _ _ Hk). cbn [canon_body]. rewrite H2, H3, H4, Hk.
   destruct (num_header c k) as [hd|]; cbn [bind]; [|exact I].
-  pose proof (num_chunks c true k OUnstackAfter hd (push DNSArray sv) cs Hwf) as HC. cbv zeta in HC.
+  pose proof (num_chunks c k OUnstackAfter hd (push DNSArray sv) cs Hwf) as HC. cbv zeta in HC.
   destruct (elems_pieces c k false _) as [ps|].
   - destruct HC as (E' & -> & Hc & Ho). cbn [bind].
     rewrite end_array_end_unstack by assumption.
@@ -1971,14 +1999,13 @@ Proof.
     destruct (N.eqb_spec n 0) as [->|Hz]; [reflexivity|].
     assert (E : 0 <? n = true) by (apply N.ltb_lt; lia). rewrite E. cbn. symmetry. apply bind_ret. }
   rewrite Hrun.
-  assert (Hwf : chunks_wf true (KNum k) [(n, false, ds)]).
+  assert (Hwf : chunks_wf (KNum k) [(n, false, ds)]).
   { cbn. repeat split; try assumption; try reflexivity; unfold ds.
     - intros ->. reflexivity.
     - destruct (N.eqb_spec n 0); [lia | discriminate].
     - destruct (N.eqb_spec n 0); [lia|]. cbn. pose proof (nk_width_pos k). destruct d; [cbn in Hlen; nia | discriminate].
-    - destruct (N.eqb_spec n 0); [lia|]. cbn. rewrite app_nil_r. exact Hlen.
-    - discriminate. }
-  pose proof (num_chunks c true k ONone hd sv [(n, false, ds)] Hwf) as HC. cbv zeta in HC. fold sB in HC.
+    - destruct (N.eqb_spec n 0); [lia|]. cbn. rewrite app_nil_r. exact Hlen. }
+  pose proof (num_chunks c k ONone hd sv [(n, false, ds)] Hwf) as HC. cbv zeta in HC. fold sB in HC.
   assert (HD : flat_map chunk_payload [(n, false, ds)] = d).
   { cbn. rewrite app_nil_r. unfold ds. destruct (N.eqb_spec n 0) as [->|]; cbn; [destruct d; [reflexivity | discriminate] | apply app_nil_r]. }
   rewrite HD in HC.
@@ -1993,15 +2020,15 @@ Qed.
 Lemma inv_pstep_bit s ch s' : inv_kind KBit s -> pstep_bit s ch = Some s' -> inv_kind KBit s'.
 Proof. unfold inv_kind, pstep_bit. intros Ek [= <-]. cbn [en set_en emit_nolf emit_cd]. destruct (en s); exact Ek. Qed.
 
-Lemma bit_chunks c strict o x cs :
-  chunks_wf strict KBit cs ->
+Lemma bit_chunks c o x cs :
+  chunks_wf KBit cs ->
   let sB := emit_nolf t_bithdr (upd_en (eng_begin KBit CEnd o) x) in
   exists E', run c sB (chunks_events cs) = end_array (set_en E' (emit_nolf (bits_text (flat_map chunk_bits cs)) sB)) /\
              ecomp E' = CEnd /\ eouter E' = o.
 Proof.
   intros Hwf sB. assert (Hi : inv_kind KBit sB) by reflexivity.
-  rewrite (run_chunks c strict KBit (inv_kind KBit) pstep_bit
-             (fun s ch => chunk_bit c strict s ch) (fun s ch s' Hs _ Hp => inv_pstep_bit s ch s' Hs Hp) cs sB Hi Hwf).
+  rewrite (run_chunks c KBit (inv_kind KBit) pstep_bit
+             (fun s ch => chunk_bit c s ch) (fun s ch s' Hs _ Hp => inv_pstep_bit s ch s' Hs Hp) cs sB Hi Hwf).
   destruct (psteps_bit cs sB) as (E' & Hp & Hc & Ho). rewrite Hp. cbn [bind]. exists E'. auto.
 Qed.
 
@@ -2016,7 +2043,7 @@ Lemma R_bit_result0 E' bt F sv :
 Proof. apply R_intro; reflexivity. Qed.
 
 Lemma group_bit_chunked c cs s :
-  chunks_wf true KBit cs ->
+  chunks_wf KBit cs ->
   oeq (run c s (EArrayBegin AT_Bit :: chunks_events cs)) (canon c (HArr AT_Bit) (ABits (flat_map chunk_bits cs)) s).
 Proof.
   intro Hwf. cbn [run step]. unfold canon, ctx_begin_array.
@@ -2026,7 +2053,7 @@ Proof.
   change (engine_begin_array c AT_Bit OUnstackAfter (push DNSArray sv))
     with (Some (emit_nolf t_bithdr (upd_en (eng_begin KBit CEnd OUnstackAfter) (push DNSArray sv)))).
   cbn [bind canon_body]. change (AT_Bit =? AT_Bit) with true. cbv iota.
-  destruct (bit_chunks c true OUnstackAfter (push DNSArray sv) cs Hwf) as (E' & -> & Hc & Ho).
+  destruct (bit_chunks c OUnstackAfter (push DNSArray sv) cs Hwf) as (E' & -> & Hc & Ho).
   rewrite end_array_end_unstack by assumption.
   change (unstack (emit_nolf [93] (set_en E' (emit_nolf (bits_text (flat_map chunk_bits cs))
             (emit_nolf t_bithdr (upd_en (eng_begin KBit CEnd OUnstackAfter) (push DNSArray sv)))))))
@@ -2055,14 +2082,13 @@ Proof.
     assert (E : 0 <? n = true) by (apply N.ltb_lt; lia). rewrite E. cbn. symmetry. apply bind_ret. }
   rewrite Hrun.
   pose proof (ceil8_bounds n) as [B1 B2].
-  assert (Hwf : chunks_wf true KBit [(n, false, ds)]).
+  assert (Hwf : chunks_wf KBit [(n, false, ds)]).
   { cbn. repeat split; try assumption; try reflexivity; unfold ds.
     - intros ->. reflexivity.
     - destruct (N.eqb_spec n 0); [lia | discriminate].
     - destruct (N.eqb_spec n 0); [lia|]. cbn. destruct d; [cbn in Hlen; lia | discriminate].
-    - destruct (N.eqb_spec n 0); [lia|]. cbn. rewrite app_nil_r. exact Hlen.
-    - discriminate. }
-  destruct (bit_chunks c true ONone sv [(n, false, ds)] Hwf) as (E' & HR & Hc & Ho). fold sB in HR. rewrite HR.
+    - destruct (N.eqb_spec n 0); [lia|]. cbn. rewrite app_nil_r. exact Hlen. }
+  destruct (bit_chunks c ONone sv [(n, false, ds)] Hwf) as (E' & HR & Hc & Ho). fold sB in HR. rewrite HR.
   rewrite end_array_end_none by assumption. cbn [bind].
   assert (HD : flat_map chunk_bits [(n, false, ds)] = firstn (N.to_nat n) (bytes_bits d)).
   { cbn. rewrite app_nil_r. unfold ds. destruct (N.eqb_spec n 0) as [->|]; cbn; [reflexivity | rewrite app_nil_r; reflexivity]. }
@@ -2074,32 +2100,32 @@ Qed.
 Lemma inv_pstep_str s ch s' : inv_kind KStr s -> pstep_str s ch = Some s' -> inv_kind KStr s'.
 Proof. unfold inv_kind, pstep_str. intros Ek [= <-]. cbn [en set_en]. destruct (en s); exact Ek. Qed.
 
-Lemma str_chunks c strict sB cs :
-  chunks_wf strict KStr cs -> inv_kind KStr sB ->
+Lemma str_chunks c sB cs :
+  chunks_wf KStr cs -> inv_kind KStr sB ->
   exists E', run c sB (chunks_events cs) = end_array (set_en E' sB) /\
              ebuf E' = ebuf (en sB) ++ flat_map chunk_payload cs /\ ecomp E' = ecomp (en sB) /\ eouter E' = eouter (en sB).
 Proof.
   intros Hwf Hi.
-  rewrite (run_chunks c strict KStr (inv_kind KStr) pstep_str
-             (fun s ch => chunk_str c strict s ch) (fun s ch s' Hs _ Hp => inv_pstep_str s ch s' Hs Hp) cs sB Hi Hwf).
+  rewrite (run_chunks c KStr (inv_kind KStr) pstep_str
+             (fun s ch => chunk_str c s ch) (fun s ch s' Hs _ Hp => inv_pstep_str s ch s' Hs Hp) cs sB Hi Hwf).
   destruct (psteps_str cs sB) as (E' & Hp & Hb & Hc & Ho & _). rewrite Hp. cbn [bind]. exists E'. auto.
 Qed.
 
 (* after the header [pre] of a string-like array (possibly empty) *)
 Lemma group_str_tail c lf cs sB X D :
-  chunks_wf true KStr cs -> inv_kind KStr sB -> ebuf (en sB) = [] -> ecomp (en sB) = CQuoted lf -> eouter (en sB) = OAfter ->
+  chunks_wf KStr cs -> inv_kind KStr sB -> ebuf (en sB) = [] -> ecomp (en sB) = CQuoted lf -> eouter (en sB) = OAfter ->
   R sB X -> D = flat_map chunk_payload cs ->
   oeq (run c sB (chunks_events cs)) (after_value (write_quoted lf D X)).
 Proof.
   intros Hwf Hi Hb Hc Ho HR ->.
-  destruct (str_chunks c true sB cs Hwf Hi) as (E' & -> & Hb' & Hc' & Ho').
+  destruct (str_chunks c sB cs Hwf Hi) as (E' & -> & Hb' & Hc' & Ho').
   rewrite (end_array_quoted_after _ lf) by (cbn [en set_en]; congruence).
   cbn [en set_en]. rewrite Hb', Hb. cbn [app].
   apply congO_after_value. apply cong_write_quoted. eapply R_trans; [apply R_set_en | exact HR].
 Qed.
 
 Lemma group_text_chunked c t cs s :
-  is_text_type t = true -> chunks_wf true KStr cs ->
+  is_text_type t = true -> chunks_wf KStr cs ->
   oeq (run c s (EArrayBegin t :: chunks_events cs)) (canon c (HArr t) (ABytes (flat_map chunk_payload cs)) s).
 Proof.
   intros Ht Hwf. cbn [run step]. unfold canon, ctx_begin_array.
@@ -2121,7 +2147,7 @@ Proof.
 Qed.
 
 Lemma group_custom_text_chunked c ct cs s :
-  chunks_wf true KStr cs ->
+  chunks_wf KStr cs ->
   oeq (run c s (ECustomBegin AT_CustomText ct :: chunks_events cs)) (canon c (HCustom AT_CustomText ct) (ABytes (flat_map chunk_payload cs)) s).
 Proof.
   intro Hwf. cbn [run step]. unfold canon.
@@ -2134,19 +2160,19 @@ Qed.
 (* ---- media and custom binary, chunked ---- *)
 
 Lemma hex_chunks c sB cs :
-  chunks_wf true KHex cs -> inv_kind KHex sB -> ehw (en sB) = false ->
+  chunks_wf KHex cs -> inv_kind KHex sB -> ehw (en sB) = false ->
   exists E' dz, run c sB (chunks_events cs) = end_array (set_en E' (emit_cd (hexbytes (flat_map chunk_payload cs)) dz sB)) /\
                 ecomp E' = ecomp (en sB) /\ eouter E' = eouter (en sB).
 Proof.
   intros Hwf Hi Hhw.
-  rewrite (run_chunks c true KHex (inv_kind KHex) pstep_hex
+  rewrite (run_chunks c KHex (inv_kind KHex) pstep_hex
              (fun s ch => chunk_hex c s ch) (fun s ch s' Hs _ Hp => inv_pstep_hex s ch s' Hs Hp) cs sB Hi Hwf).
-  destruct (psteps_hex cs sB (chunks_wf_forall _ _ _ Hwf)) as (E' & dz & Hp & Hc & Ho). cbv zeta in Hp.
+  destruct (psteps_hex cs sB (chunks_wf_forall _ _ Hwf)) as (E' & dz & Hp & Hc & Ho). cbv zeta in Hp.
   rewrite Hp, Hhw. cbn [andb app bind]. exists E', dz. auto.
 Qed.
 
 Lemma group_hex_tail c hdr cs sv :
-  chunks_wf true KHex cs -> stack sv <> [] ->
+  chunks_wf KHex cs -> stack sv <> [] ->
   oeq (run c (emit_nolf hdr (upd_en (eng_begin KHex CEnd OUnstackAfter) (set_dirty (push DNSArray sv)))) (chunks_events cs))
       (after_value (emit_nolf [93] (emit_raw (hexbytes (flat_map chunk_payload cs)) (emit_nolf hdr (set_dirty sv))))).
 Proof.
@@ -2161,7 +2187,7 @@ Proof.
 Qed.
 
 Lemma group_media_chunked c mt cs s :
-  chunks_wf true KHex cs ->
+  chunks_wf KHex cs ->
   oeq (run c s (EMediaBegin mt :: chunks_events cs)) (canon c (HMedia mt) (ABytes (flat_map chunk_payload cs)) s).
 Proof.
   intro Hwf. cbn [run step]. unfold canon.
@@ -2171,7 +2197,7 @@ Proof.
 Qed.
 
 Lemma group_custom_bin_chunked c ct cs s :
-  chunks_wf true KHex cs ->
+  chunks_wf KHex cs ->
   oeq (run c s (ECustomBegin AT_CustomBinary ct :: chunks_events cs)) (canon c (HCustom AT_CustomBinary ct) (ABytes (flat_map chunk_payload cs)) s).
 Proof.
   intro Hwf. cbn [run step]. unfold canon.
@@ -2185,7 +2211,7 @@ Qed.
 (* ------------------------------------------------------------------ *)
 (** * Every delivery of an array has the canonical effect *)
 
-Theorem delivery_canon c h d g : delivery true h d g -> forall s, oeq (run c s g) (canon c h d s).
+Theorem delivery_canon c h d g : delivery h d g -> forall s, oeq (run c s g) (canon c h d s).
 Proof.
   intros Hd s. destruct Hd as [h k cs Hk Hwf | t k n d Hk Hn Hlen | n d Hn Hlen | t n d Ht | t d Ht | mt d | ct d | ct d].
   - destruct h as [t|mt|t ct]; cbn [hkind begin_event] in *.
@@ -2212,7 +2238,7 @@ Qed.
 (* ------------------------------------------------------------------ *)
 (** * The text does not depend on the delivery *)
 
-Lemma sim_run c es1 es2 : chunk_equiv true es1 es2 ->
+Lemma sim_run c es1 es2 : chunk_equiv es1 es2 ->
   forall s1 s2 s1', R s1 s2 -> run c s1 es1 = Some s1' -> bad s1' = false ->
   exists s2', run c s2 es2 = Some s2' /\ R s1' s2'.
 Proof.
@@ -2237,10 +2263,10 @@ Proof.
     eapply R_trans; [exact H1|]. eapply R_trans; [exact HRc|]. apply R_sym, H2.
 Qed.
 
-Lemma chunk_equiv_sym strict a b : chunk_equiv strict a b -> chunk_equiv strict b a.
+Lemma chunk_equiv_sym a b : chunk_equiv a b -> chunk_equiv b a.
 Proof. induction 1; econstructor; eauto. Qed.
 
-Lemma chunk_equiv_refl_plain strict es : forallb plain_event es = true -> chunk_equiv strict es es.
+Lemma chunk_equiv_refl_plain es : forallb plain_event es = true -> chunk_equiv es es.
 Proof.
   induction es as [|e es IH]; cbn; intro H; [constructor|].
   apply andb_true_iff in H. destruct H. constructor; auto.
@@ -2250,7 +2276,7 @@ Lemma R_out a b : R a b -> out_of a = out_of b.
 Proof. intro H. unfold out_of. rewrite (R_rout _ _ H). reflexivity. Qed.
 
 Lemma encode_dir c es1 es2 t :
-  chunk_equiv true es1 es2 -> col_clean c es1 = true -> cte_encode c es1 = Some t -> cte_encode c es2 = Some t.
+  chunk_equiv es1 es2 -> col_clean c es1 = true -> cte_encode c es1 = Some t -> cte_encode c es2 = Some t.
 Proof.
   unfold cte_encode, col_clean. intros Heq Hc He.
   destruct (run c est0 es1) as [s1'|] eqn:E1; [|discriminate]. injection He as <-.
@@ -2263,19 +2289,19 @@ Qed.
    (or both make the encoder panic), provided neither run reads Column while it
    depends on the split of a media / custom-binary array. *)
 Theorem cte_text_chunk_invariant c es1 es2 :
-  chunk_equiv true es1 es2 -> col_clean c es1 = true -> col_clean c es2 = true ->
+  chunk_equiv es1 es2 -> col_clean c es1 = true -> col_clean c es2 = true ->
   cte_encode c es1 = cte_encode c es2.
 Proof.
   intros Heq H1 H2.
   destruct (cte_encode c es1) as [t1|] eqn:E1.
   - symmetry. apply (encode_dir c es1 es2 t1 Heq H1 E1).
   - destruct (cte_encode c es2) as [t2|] eqn:E2; [|reflexivity].
-    rewrite (encode_dir c es2 es1 t2 (chunk_equiv_sym _ _ _ Heq) H2 E2) in E1. discriminate.
+    rewrite (encode_dir c es2 es1 t2 (chunk_equiv_sym _ _ Heq) H2 E2) in E1. discriminate.
 Qed.
 
 (* [col_clean] is itself invariant *)
 Lemma col_clean_dir c es1 es2 :
-  chunk_equiv true es1 es2 -> col_clean c es1 = true -> run c est0 es1 <> None -> col_clean c es2 = true.
+  chunk_equiv es1 es2 -> col_clean c es1 = true -> run c est0 es1 <> None -> col_clean c es2 = true.
 Proof.
   unfold col_clean. intros Heq Hc Hn.
   destruct (run c est0 es1) as [s1'|] eqn:E1; [|congruence].
@@ -2285,13 +2311,18 @@ Proof.
 Qed.
 
 (* ------------------------------------------------------------------ *)
-(** * The property as stated fails: empty data events in media / custom binary *)
+(** * The chunk-invariance half of the property, and the inputs that used to refute it *)
 
-Definition chunk_invariance (strict : bool) : Prop :=
-  forall c es1 es2, chunk_equiv strict es1 es2 -> col_clean c es1 = true -> col_clean c es2 = true ->
+Definition chunk_invariance : Prop :=
+  forall c es1 es2, chunk_equiv es1 es2 -> col_clean c es1 = true -> col_clean c es2 = true ->
                     cte_encode c es1 = cte_encode c es2.
 
+Lemma chunk_invariance_holds : chunk_invariance.
+Proof. intros c es1 es2. apply cte_text_chunk_invariant. Qed.
+
 Definition w_media : bytes := [97; 47; 98].   (* a/b *)
+(* before the fix of the media / custom-binary element writer these pairs gave
+   "@a/b[42]" vs "@a/b[ 42]" and "@3[35 20]" vs "@3[35  20]" *)
 Definition w_hex_1 : list event :=
   [EBeginDoc; EVersion 0; EMediaBegin w_media; EArrayChunk 1 false; EArrayData [66]; EEndDoc].
 Definition w_hex_2 : list event :=
@@ -2303,56 +2334,34 @@ Definition w_cbin_2 : list event :=
 
 Ltac wf_chunk := cbn; repeat split; intros; try discriminate; try reflexivity; try lia; try (repeat constructor; discriminate).
 
-Lemma w_hex_equiv : chunk_equiv false w_hex_1 w_hex_2.
+Lemma w_hex_equiv : chunk_equiv w_hex_1 w_hex_2.
 Proof.
   unfold w_hex_1, w_hex_2. do 2 (apply ce_plain; [reflexivity|]).
-  apply (ce_array false (HMedia w_media) (ABytes [66])
+  apply (ce_array (HMedia w_media) (ABytes [66])
            (EMediaBegin w_media :: chunks_events [(1, false, [[66]])])
            (EMediaBegin w_media :: chunks_events [(1, false, [[]; [66]])]) [EEndDoc] [EEndDoc]).
-  - apply (dl_chunked false (HMedia w_media) KHex [(1, false, [[66]])]); [reflexivity | wf_chunk].
-  - apply (dl_chunked false (HMedia w_media) KHex [(1, false, [[]; [66]])]); [reflexivity | wf_chunk].
+  - apply (dl_chunked (HMedia w_media) KHex [(1, false, [[66]])]); [reflexivity | wf_chunk].
+  - apply (dl_chunked (HMedia w_media) KHex [(1, false, [[]; [66]])]); [reflexivity | wf_chunk].
   - apply ce_plain; [reflexivity | constructor].
 Qed.
 
-Lemma w_cbin_equiv : chunk_equiv false w_cbin_1 w_cbin_2.
+Lemma w_cbin_equiv : chunk_equiv w_cbin_1 w_cbin_2.
 Proof.
   unfold w_cbin_1, w_cbin_2. do 2 (apply ce_plain; [reflexivity|]).
-  apply (ce_array false (HCustom AT_CustomBinary 3) (ABytes [53; 32])
+  apply (ce_array (HCustom AT_CustomBinary 3) (ABytes [53; 32])
            [ECustomBin 3 [53; 32]]
            (ECustomBegin AT_CustomBinary 3 :: chunks_events [(2, false, [[53]; []; [32]])]) [EEndDoc] [EEndDoc]).
   - apply dl_custom_bin.
-  - apply (dl_chunked false (HCustom AT_CustomBinary 3) KHex [(2, false, [[53]; []; [32]])]); [reflexivity | wf_chunk].
+  - apply (dl_chunked (HCustom AT_CustomBinary 3) KHex [(2, false, [[53]; []; [32]])]); [reflexivity | wf_chunk].
   - apply ce_plain; [reflexivity | constructor].
 Qed.
 
-Lemma w_hex_texts :
-  cte_encode default_ccfg w_hex_1 = Some [99; 48; 10; 64; 97; 47; 98; 91; 52; 50; 93] /\         (* c0\n@a/b[42] *)
-  cte_encode default_ccfg w_hex_2 = Some [99; 48; 10; 64; 97; 47; 98; 91; 32; 52; 50; 93] /\     (* c0\n@a/b[ 42] *)
-  col_clean default_ccfg w_hex_1 = true /\ col_clean default_ccfg w_hex_2 = true.
+Lemma w_repaired_texts :
+  cte_encode default_ccfg w_hex_1 = Some [99; 48; 10; 64; 97; 47; 98; 91; 52; 50; 93] /\          (* c0\n@a/b[42] *)
+  cte_encode default_ccfg w_hex_2 = Some [99; 48; 10; 64; 97; 47; 98; 91; 52; 50; 93] /\
+  cte_encode default_ccfg w_cbin_1 = Some [99; 48; 10; 64; 51; 91; 51; 53; 32; 50; 48; 93] /\      (* c0\n@3[35 20] *)
+  cte_encode default_ccfg w_cbin_2 = Some [99; 48; 10; 64; 51; 91; 51; 53; 32; 50; 48; 93].
 Proof. vm_compute. repeat split. Qed.
-
-Lemma w_cbin_texts :
-  cte_encode default_ccfg w_cbin_1 = Some [99; 48; 10; 64; 51; 91; 51; 53; 32; 50; 48; 93] /\        (* c0\n@3[35 20] *)
-  cte_encode default_ccfg w_cbin_2 = Some [99; 48; 10; 64; 51; 91; 51; 53; 32; 32; 50; 48; 93] /\    (* c0\n@3[35  20] *)
-  col_clean default_ccfg w_cbin_1 = true /\ col_clean default_ccfg w_cbin_2 = true.
-Proof. vm_compute. repeat split. Qed.
-
-Lemma chunk_invariance_full_refuted : ~ chunk_invariance false.
-Proof.
-  intro H. destruct w_hex_texts as (E1 & E2 & C1 & C2).
-  specialize (H default_ccfg w_hex_1 w_hex_2 w_hex_equiv C1 C2). rewrite E1, E2 in H. discriminate.
-Qed.
-
-Lemma chunk_invariance_full_refuted_custom_binary :
-  exists es1 es2, chunk_equiv false es1 es2 /\ col_clean default_ccfg es1 = true /\ col_clean default_ccfg es2 = true /\
-                  cte_encode default_ccfg es1 <> cte_encode default_ccfg es2.
-Proof.
-  exists w_cbin_1, w_cbin_2. destruct w_cbin_texts as (E1 & E2 & C1 & C2).
-  split; [apply w_cbin_equiv|]. split; [exact C1|]. split; [exact C2|]. rewrite E1, E2; discriminate.
-Qed.
-
-Lemma chunk_invariance_strict : chunk_invariance true.
-Proof. intros c es1 es2. apply cte_text_chunk_invariant. Qed.
 
 (* ------------------------------------------------------------------ *)
 (** * The hypotheses are satisfiable: a worked instance *)
@@ -2374,28 +2383,28 @@ Definition ex_chunked : list event :=
                           EArrayChunk 0 true; EArrayChunk 1 false; EArrayData [255]; EArrayData [255];
    EArrayBegin AT_String; EArrayChunk 4 false; EArrayData [97; 195]; EArrayData [169; 34];
    EArrayBegin AT_Bit; EArrayChunk 3 true; EArrayData [5]; EArrayChunk 8 false; EArrayData [96];
-   EMediaBegin w_media; EArrayChunk 1 true; EArrayData [1]; EArrayChunk 2 false; EArrayData [2]; EArrayData [3];
+   EMediaBegin w_media; EArrayChunk 1 true; EArrayData [1]; EArrayChunk 2 false; EArrayData [2]; EArrayData []; EArrayData [3];
    EEnd; EEndDoc].
 
-Lemma ex_equiv : chunk_equiv true ex_whole ex_chunked.
+Lemma ex_equiv : chunk_equiv ex_whole ex_chunked.
 Proof.
   unfold ex_whole, ex_chunked. do 3 (apply ce_plain; [reflexivity|]).
-  apply (ce_array true (HArr AT_Uint16) (ABytes [1; 0; 2; 0; 255; 255]) [EArray AT_Uint16 3 [1; 0; 2; 0; 255; 255]]
+  apply (ce_array (HArr AT_Uint16) (ABytes [1; 0; 2; 0; 255; 255]) [EArray AT_Uint16 3 [1; 0; 2; 0; 255; 255]]
            (EArrayBegin AT_Uint16 :: chunks_events [(2, true, [[1]; [0; 2]; []; [0]]); (0, true, []); (1, false, [[255]; [255]])])).
-  { apply (dl_array_num true AT_Uint16 NU16); [reflexivity | lia | reflexivity]. }
-  { apply (dl_chunked true (HArr AT_Uint16) (KNum NU16) [(2, true, [[1]; [0; 2]; []; [0]]); (0, true, []); (1, false, [[255]; [255]])]); [reflexivity | wf_chunk]. }
-  apply (ce_array true (HArr AT_String) (ABytes [97; 195; 169; 34]) [EStringArray AT_String [97; 195; 169; 34]]
+  { apply (dl_array_num AT_Uint16 NU16); [reflexivity | lia | reflexivity]. }
+  { apply (dl_chunked (HArr AT_Uint16) (KNum NU16) [(2, true, [[1]; [0; 2]; []; [0]]); (0, true, []); (1, false, [[255]; [255]])]); [reflexivity | wf_chunk]. }
+  apply (ce_array (HArr AT_String) (ABytes [97; 195; 169; 34]) [EStringArray AT_String [97; 195; 169; 34]]
            (EArrayBegin AT_String :: chunks_events [(4, false, [[97; 195]; [169; 34]])])).
   { apply dl_string_array. reflexivity. }
-  { apply (dl_chunked true (HArr AT_String) KStr [(4, false, [[97; 195]; [169; 34]])]); [reflexivity | wf_chunk]. }
-  apply (ce_array true (HArr AT_Bit) (ABits [true; false; true; false; false; false; false; false; true; true; false]) [EArray AT_Bit 11 [5; 3]]
+  { apply (dl_chunked (HArr AT_String) KStr [(4, false, [[97; 195]; [169; 34]])]); [reflexivity | wf_chunk]. }
+  apply (ce_array (HArr AT_Bit) (ABits [true; false; true; false; false; false; false; false; true; true; false]) [EArray AT_Bit 11 [5; 3]]
            (EArrayBegin AT_Bit :: chunks_events [(3, true, [[5]]); (8, false, [[96]])])).
-  { apply (dl_array_bit true 11 [5; 3]); [lia | reflexivity]. }
-  { apply (dl_chunked true (HArr AT_Bit) KBit [(3, true, [[5]]); (8, false, [[96]])]); [reflexivity | wf_chunk]. }
-  apply (ce_array true (HMedia w_media) (ABytes [1; 2; 3]) [EMedia w_media [1; 2; 3]]
-           (EMediaBegin w_media :: chunks_events [(1, true, [[1]]); (2, false, [[2]; [3]])])).
+  { apply (dl_array_bit 11 [5; 3]); [lia | reflexivity]. }
+  { apply (dl_chunked (HArr AT_Bit) KBit [(3, true, [[5]]); (8, false, [[96]])]); [reflexivity | wf_chunk]. }
+  apply (ce_array (HMedia w_media) (ABytes [1; 2; 3]) [EMedia w_media [1; 2; 3]]
+           (EMediaBegin w_media :: chunks_events [(1, true, [[1]]); (2, false, [[2]; []; [3]])])).
   { apply dl_media. }
-  { apply (dl_chunked true (HMedia w_media) KHex [(1, true, [[1]]); (2, false, [[2]; [3]])]); [reflexivity | wf_chunk]. }
+  { apply (dl_chunked (HMedia w_media) KHex [(1, true, [[1]]); (2, false, [[2]; []; [3]])]); [reflexivity | wf_chunk]. }
   do 2 (apply ce_plain; [reflexivity|]). constructor.
 Qed.
 
@@ -2411,20 +2420,19 @@ Proof. vm_compute. split; [reflexivity | discriminate]. Qed.
 Lemma nonemptyb_true {A} (l : list A) : nonemptyb l = true -> l <> [].
 Proof. destruct l; [discriminate | discriminate]. Qed.
 
-Lemma chunk_wfb_sound k c : chunk_wfb k c = true -> chunk_wf true k c.
+Lemma chunk_wfb_sound k c : chunk_wfb k c = true -> chunk_wf k c.
 Proof.
   destruct c as [[n m] ds]. unfold chunk_wfb, chunk_wf. intro H.
-  apply andb_true_iff in H. destruct H as [H Hhex]. apply andb_true_iff in H. destruct H as [Hn Hb].
+  apply andb_true_iff in H. destruct H as [Hn Hb].
   apply N.ltb_lt in Hn. split; [exact Hn|]. destruct (N.eqb_spec n 0) as [->|Hnz].
   - assert (ds = []) by (destruct ds; [reflexivity | discriminate]). subst ds.
-    split; [reflexivity|]. split; [intro; lia|]. intros _ _. constructor.
+    split; [reflexivity|]. intro; lia.
   - apply andb_true_iff in Hb. destruct Hb as [Hb Hlen]. apply andb_true_iff in Hb. destruct Hb as [Hne Hlast].
-    split; [intro; congruence|]. split.
-    + intros _. split; [apply nonemptyb_true, Hne|]. split; [apply nonemptyb_true, Hlast | apply Nat.eqb_eq, Hlen].
-    + intros _ ->. apply Forall_forall. intros d Hd. rewrite forallb_forall in Hhex. apply nonemptyb_true, Hhex, Hd.
+    split; [intro; congruence|].
+    intros _. split; [apply nonemptyb_true, Hne|]. split; [apply nonemptyb_true, Hlast | apply Nat.eqb_eq, Hlen].
 Qed.
 
-Lemma chunks_wfb_sound k cs : chunks_wfb k cs = true -> chunks_wf true k cs.
+Lemma chunks_wfb_sound k cs : chunks_wfb k cs = true -> chunks_wf k cs.
 Proof.
   induction cs as [|c r IH]; [discriminate|]. cbn [chunks_wfb chunks_wf]. intro H.
   apply andb_true_iff in H. destruct H as [Hc Hr]. split; [apply chunk_wfb_sound, Hc|].
@@ -2441,7 +2449,7 @@ Proof.
     apply andb_true_iff in H. destruct H as [H1 H2]. apply Bool.eqb_prop in H1. subst. f_equal. apply IH, H2.
 Qed.
 
-Lemma dform_data_sound h f d : dform_data h f = Some d -> delivery true h d (dform_events h f).
+Lemma dform_data_sound h f d : dform_data h f = Some d -> delivery h d (dform_events h f).
 Proof.
   destruct f as [e|cs]; cbn [dform_data dform_events].
   - destruct h as [t|mt|t ct], e; try discriminate.
@@ -2455,7 +2463,7 @@ Proof.
         destruct (nkind_of t) as [k|] eqn:Ek; [|discriminate].
         destruct ((count <? 2 ^ 64) && (length data =? N.to_nat count * nk_width k)%nat) eqn:E; [|discriminate].
         intros [= <-]. apply andb_true_iff in E. destruct E as [E1 E2]. apply N.ltb_lt in E1. apply Nat.eqb_eq in E2.
-        apply (dl_array_num true t k); assumption.
+        apply (dl_array_num t k); assumption.
     + (* EStringArray *)
       destruct ((t =? t0) && is_text_type t) eqn:E; [|discriminate]. intros [= <-].
       apply andb_true_iff in E. destruct E as [E1 E2]. apply N.eqb_eq in E1. subst t0. apply dl_string_array, E2.
@@ -2472,7 +2480,7 @@ Proof.
     apply dl_chunked; [exact Ek | apply chunks_wfb_sound, Ew].
 Qed.
 
-Theorem segs_equiv segs : forallb seg_okb segs = true -> chunk_equiv true (segs_events true segs) (segs_events false segs).
+Theorem segs_equiv segs : forallb seg_okb segs = true -> chunk_equiv (segs_events true segs) (segs_events false segs).
 Proof.
   induction segs as [|s r IH]; cbn [forallb]; intro H; [constructor|].
   apply andb_true_iff in H. destruct H as [Hs Hr]. specialize (IH Hr).
@@ -2482,7 +2490,7 @@ Proof.
   - destruct (dform_data h f1) as [d1|] eqn:E1; [|discriminate].
     destruct (dform_data h f2) as [d2|] eqn:E2; [|discriminate].
     apply adata_eqb_eq in Hs. subst d2.
-    apply (ce_array true h d1); [apply dform_data_sound, E1 | apply dform_data_sound, E2 | exact IH].
+    apply (ce_array h d1); [apply dform_data_sound, E1 | apply dform_data_sound, E2 | exact IH].
 Qed.
 
 (* what a passing equivalence case establishes about the model *)
@@ -2644,7 +2652,7 @@ Lemma calm_add_elems c d : calmO (add_elems c d).
 Proof.
   intros s s' Hc E. unfold add_elems in E. destruct (ek (en s)); try discriminate.
   - injection E as <-. apply calm_upd_en, Hc.
-  - injection E as <-. apply calm_emit_raw, calm_space_if_hw, Hc.
+  - destruct d; injection E as <-; [exact Hc | apply calm_emit_raw, calm_space_if_hw, Hc].
   - eapply calm_emit_elems; eauto.
 Qed.
 Lemma calm_tail_of c w d : calmO (tail_of c w d).
@@ -2758,8 +2766,8 @@ Qed.
 Definition hex_header (h : ahead) : bool :=
   match h with HMedia _ => true | HCustom t _ => t =? AT_CustomBinary | HArr _ => false end.
 
-Lemma delivery_dirty strict h d g :
-  delivery strict h d g -> forallb (fun e => negb (sets_dirty e)) g = negb (hex_header h).
+Lemma delivery_dirty h d g :
+  delivery h d g -> forallb (fun e => negb (sets_dirty e)) g = negb (hex_header h).
 Proof.
   assert (Hchunks : forall cs, forallb (fun e => negb (sets_dirty e)) (chunks_events cs) = true).
   { intro cs. unfold chunks_events. apply forallb_forall. intros e He. apply in_flat_map in He. destruct He as ([[n m] ds] & _ & He).
@@ -2768,24 +2776,24 @@ Proof.
   rewrite Hchunks, andb_true_r. destruct h; reflexivity.
 Qed.
 
-Lemma sets_dirty_delivery strict h d g1 g2 :
-  delivery strict h d g1 -> delivery strict h d g2 ->
+Lemma sets_dirty_delivery h d g1 g2 :
+  delivery h d g1 -> delivery h d g2 ->
   forallb (fun e => negb (sets_dirty e)) g1 = true -> forallb (fun e => negb (sets_dirty e)) g2 = true.
-Proof. intros H1 H2. rewrite (delivery_dirty _ _ _ _ H1), (delivery_dirty _ _ _ _ H2). auto. Qed.
+Proof. intros H1 H2. rewrite (delivery_dirty _ _ _ H1), (delivery_dirty _ _ _ H2). auto. Qed.
 
-Lemma sets_dirty_equiv strict es1 es2 :
-  chunk_equiv strict es1 es2 ->
+Lemma sets_dirty_equiv es1 es2 :
+  chunk_equiv es1 es2 ->
   forallb (fun e => negb (sets_dirty e)) es1 = true -> forallb (fun e => negb (sets_dirty e)) es2 = true.
 Proof.
   induction 1 as [| e a b Hp Heq IH | h d g1 g2 a b Hd1 Hd2 Heq IH]; intro H; [reflexivity| |].
   - cbn [forallb] in *. apply andb_true_iff in H. destruct H as [H1 H2]. rewrite H1, (IH H2). reflexivity.
   - rewrite forallb_app in *. apply andb_true_iff in H. destruct H as [H1 H2].
-    rewrite (sets_dirty_delivery strict h d g1 g2 Hd1 Hd2 H1), (IH H2). reflexivity.
+    rewrite (sets_dirty_delivery h d g1 g2 Hd1 Hd2 H1), (IH H2). reflexivity.
 Qed.
 
 (* unconditional form for streams without media / custom binary *)
 Theorem cte_text_chunk_invariant_no_hex c es1 es2 :
-  chunk_equiv true es1 es2 -> forallb (fun e => negb (sets_dirty e)) es1 = true ->
+  chunk_equiv es1 es2 -> forallb (fun e => negb (sets_dirty e)) es1 = true ->
   cte_encode c es1 = cte_encode c es2.
 Proof.
   intros Heq H. apply cte_text_chunk_invariant; [exact Heq | apply col_clean_without_hex, H |].
